@@ -1,6 +1,7 @@
 import RumaModel.Proto
 import RumaModel.Model.HttpHeaders
 import RumaModel.Model.RingCompat
+import RumaModel.Model.ScanMultipart
 namespace Ruma.Driver.C17
 open Ruma Ruma.Proto Ruma.HttpHeaders
 
@@ -16,6 +17,17 @@ def showType : DispType → String
   | .inline => "inline"
   | .attachment => "attachment"
   | .custom s => "custom:" ++ hex s
+
+def parseBoolTok : String → Option Bool
+  | "t" => some true
+  | "f" => some false
+  | _ => none
+
+def parseHdrVerdict : String → Option ScanMultipart.HdrVerdict
+  | "file" => some .file
+  | "loc" => some .location
+  | "bad" => some .bad
+  | _ => none
 
 def handle (toks : List String) : String :=
   match toks with
@@ -39,6 +51,22 @@ def handle (toks : List String) : String :=
     match parseH h with
     | some s => (match RingCompat.fromBytes s with | .ok _ => "nopanic" | .panic => "panic")
     | none => "bad-op"
+  -- multipart/mixed splitter; `j` = serde_json accepted the metadata part, `e` = verdict of the
+  -- external header stage (httparse + header loop) on the content part's headers
+  | ["c17.mp", hb, h, j, e] =>
+    match parseH hb, parseH h, parseBoolTok j, parseHdrVerdict e with
+    | some b, some body, some jv, some ev =>
+      match ScanMultipart.split ⟨fun _ => jv, fun _ => ev⟩ b body with
+      | .ok (.file f) => "ok file " ++ showH f
+      | .ok .location => "ok loc"
+      | .err .parts0 => "err parts0"
+      | .err .parts1 => "err parts1"
+      | .err .sep => "err sep"
+      | .err .json => "err json"
+      | .err .hdr => "err hdr"
+      | .panic => "panic"
+      | .hang => "hang"
+    | _, _, _, _ => "bad-op"
   -- Spec answer for every untrusted-input entry point: it returns (a value or an error).
   | ["c17.ep", _name, h] =>
     match parseH h with
